@@ -1139,6 +1139,7 @@ void SZ_compress_args_uint64_withinRange(unsigned char** newByteData, uint64_t *
 	tdps->isLossless = 0;
 	//tdps->exactByteSize = 8;
 	tdps->exactDataNum = 1;
+	tdps->dataTypeSize = sizeof(uint64_t); //it goes into the flag byte of the stream
 	tdps->exactDataBytes_size = 8;
 
 	uint64_t value = oriData[0];
